@@ -318,6 +318,15 @@ func (wd *world) fire(o opT, id int) (accepted bool) {
 			}
 		}
 		h.Delete(ctx, obj, wd.q)
+	case 'D':
+		// a delete whose final state is unknown (tombstone found by a relist): the same event for the controller
+		obj := mkObj(o, id, false)
+		for _, p := range h.Predicates() {
+			if !p.Delete(event.DeleteEvent{Object: obj, DeleteStateUnknown: true}) {
+				return false
+			}
+		}
+		h.DeleteUnknown(ctx, obj, wd.q)
 	case 'g':
 		h.Generic(ctx, mkObj(o, id, false), wd.q)
 	}
@@ -542,7 +551,7 @@ var swapOp = opT{swap: true}
 
 func randEvent(r *gen.Rng, kinds []string, names int) opT {
 	k := gen.Pick(r, kinds)
-	o := ev(k, gen.Pick(r, []byte{'c', 'u', 'u', 'u', 'd'}), r.Intn(2), 2+r.Intn(names))
+	o := ev(k, gen.Pick(r, []byte{'c', 'u', 'u', 'u', 'd', 'D'}), r.Intn(2), 2+r.Intn(names))
 	if r.Chance(1, 40) {
 		o.typ = 'g'
 	}
@@ -593,6 +602,9 @@ func corpus() {
 	// dedup of links and descriptions, same name in two resources, event during/after swap
 	emitSeq(cfgT{}, []opT{ev("secret", 'u', 0, 2), ev("secret", 'u', 0, 2), ev("svc", 'u', 0, 2), ev("secret", 'd', 0, 2), swapOp,
 		ev("secret", 'u', 0, 2), swapOp, swapOp})
+	// tombstone deletes (DeleteStateUnknown) are ordinary deletions for the batch (after seed C14h)
+	emitSeq(cfgT{}, []opT{ev("ing", 'c', 0, 2), swapOp, ev("ing", 'D', 0, 2), swapOp, swapOp})
+	emitSeq(cfgT{}, []opT{ev("svc", 'D', 0, 2), ev("secret", 'D', 0, 3), ev("ep", 'D', 0, 2), swapOp, ev("cm", 'D', 0, 0), swapOp})
 	// both invalid: rejected for Ingress (predicate), accepted without list entry for a Gateway
 	emitSeq(all, []opT{ev("ing", 'u', 0, 2).valid(false, false), ev("gwA2", 'u', 0, 2).valid(false, false), ev("ing", 'c', 0, 3).valid(true, false), swapOp})
 	// EndpointSlice service-name label, endpoints API selection, pod create, unchanged updates, generic
@@ -616,6 +628,7 @@ func exhaustive(n int) {
 		ev("ing", 'u', 0, 2).valid(false, true),
 		ev("ing", 'u', 0, 3).valid(true, false),
 		ev("ing", 'd', 0, 2),
+		ev("ing", 'D', 0, 3),
 		ev("cm", 'u', 0, 0).withData(1),
 		ev("cm", 'u', 0, 0).withData(2),
 		ev("cm", 'u', 0, 0).withData(-1),
